@@ -18,6 +18,21 @@ use crate::{
     rng::{fnv, Rng},
 };
 
+/// reader that hands out at most `chunk` bytes per read call
+struct Chunked<'a> {
+    data: &'a [u8],
+    pos: usize,
+    chunk: usize,
+}
+impl std::io::Read for Chunked<'_> {
+    fn read(&mut self, out: &mut [u8]) -> std::io::Result<usize> {
+        let n = out.len().min(self.chunk).min(self.data.len() - self.pos);
+        out[..n].copy_from_slice(&self.data[self.pos..self.pos + n]);
+        self.pos += n;
+        Ok(n)
+    }
+}
+
 fn check_code<T: Code + PartialEq + Debug>(x: &T, fixed: bool, res: &mut ShardResult, tyname: &str) {
     res.evaluations += 1;
     res.count("code_values", 1);
@@ -42,6 +57,25 @@ fn check_code<T: Code + PartialEq + Debug>(x: &T, fixed: bool, res: &mut ShardRe
         Ok(y) if &y == x => {}
         Ok(y) => res.violate(format!("C08:code:roundtrip-differs:{tyname}"), format!("decode(encode({x:?})) = {y:?}"), replay.clone()),
         Err(e) => res.violate(format!("C08:code:decode-failed:{tyname}"), format!("decode of the encoding of {x:?} failed: {e}"), replay.clone()),
+    }
+    // decode must not depend on how the reader chunks the bytes (compression decoders deliver a value in several reads)
+    for chunk in [1usize, 3, 7, 64, 1000] {
+        if chunk >= written && chunk != 1 {
+            continue;
+        }
+        let mut r = Chunked { data: &buf[..written], pos: 0, chunk };
+        res.count("chunked_reader_decodes", 1);
+        match T::decode(&mut r) {
+            Ok(y) if &y == x => {}
+            Ok(y) => {
+                res.violate(format!("C08:code:chunked-roundtrip-differs:{tyname}"), format!("decode from a reader that returns at most {chunk} bytes per read gives {:?} for {:?}", format!("{y:?}").chars().take(80).collect::<String>(), format!("{x:?}").chars().take(80).collect::<String>()), replay.clone());
+                break;
+            }
+            Err(e) => {
+                res.violate(format!("C08:code:chunked-decode-failed:{tyname}"), format!("decode from a reader that returns at most {chunk} bytes per read failed: {e}"), replay.clone());
+                break;
+            }
+        }
     }
     // every shorter destination must report the size limit, never succeed
     let limit = written.min(40);
